@@ -11,6 +11,10 @@ macro_rules! with_prop {
     ($id:expr, $p:ident => $body:expr) => {
         match $id {
             "C01" => { let $p = &props::c01::C01; $body }
+            "C02" => { let $p = &props::c02::C02; $body }
+            "C03" => { let $p = &props::c03::C03; $body }
+            "C04" => { let $p = &props::c04::C04; $body }
+            "C05" => { let $p = &props::c05::C05; $body }
             _ => { eprintln!("unknown property {}", $id); std::process::exit(2); }
         }
     };
@@ -48,7 +52,7 @@ fn main() {
                 std::process::exit(2)
             });
             let id = body["property"].as_str().unwrap_or("").to_string();
-            let code = with_prop!(id.as_str(), p => engine::main_replay(p, &body));
+            let code = with_prop!(id.as_str(), p => engine::main_replay(p, &body, &args[2]));
             std::process::exit(code);
         }
         _ => usage(),
